@@ -24,8 +24,13 @@ def mk(master):
     from btc_hd_wallet.base_wallet import BaseWallet
     _, node = hd.parse_xkey(master["xkey"])
     if master.get("via") == "wallet":
-        return BaseWallet.from_extended_key(master["xkey"]).bip85, node
-    return BIP85DeterministicEntropy.from_xprv(master["xkey"], testnet=master.get("testnet", False)), node
+        obj = BaseWallet.from_extended_key(master["xkey"]).bip85
+    else:
+        obj = BIP85DeterministicEntropy.from_xprv(master["xkey"], testnet=master.get("testnet", False))
+    if master.get("clone"):
+        # a duplicate of the object (copy.copy / copy.deepcopy / pickle round trip); the original if that way is not offered
+        obj = dict(hdscen.clones(obj)).get(master["clone"], obj)
+    return obj, node
 
 
 APPS = {
@@ -85,7 +90,10 @@ def hist_masters():
     return [{"xkey": hdscen.root_xkey({"k": k1, "chain": c1})}, {"xkey": hdscen.root_xkey({"k": k1, "chain": c2})},
             {"xkey": hdscen.root_xkey({"k": k2, "chain": c1})},
             {"xkey": hdscen.root_xkey({"k": k1, "chain": c1, "testnet": True}), "testnet": True},
-            {"xkey": hdscen.root_xkey({"k": k1, "chain": c1, "depth": 2, "index": 7, "pfp": "0a0b0c0d"})}]
+            {"xkey": hdscen.root_xkey({"k": k1, "chain": c1, "depth": 2, "index": 7, "pfp": "0a0b0c0d"})},
+            {"xkey": hdscen.root_xkey({"k": k1, "chain": c1}), "clone": "copy.deepcopy"},
+            {"xkey": hdscen.root_xkey({"k": k2, "chain": c1}), "clone": "pickle"},
+            {"xkey": hdscen.root_xkey({"k": k2, "chain": c2}), "clone": "copy.copy", "via": "wallet"}]
 
 
 def _ev_req(i):
@@ -127,7 +135,9 @@ class CrossMasterHistories:
     must equal the reference for its own master. canon = the history itself (module-level caches are unobservable)."""
 
     def ops(self, hist):
-        return [[m, r] for m in range(len(hist_masters())) for r in range(len(HIST_REQ))]
+        ms = hist_masters()
+        # duplicated objects answer the three cheapest requests only (keeps the tree of histories small)
+        return [[m, r] for m in range(len(ms)) for r in range(len(HIST_REQ)) if not ms[m].get("clone") or r in (0, 1, 4)]
 
     def run(self, hist):
         ms = hist_masters()
@@ -200,6 +210,13 @@ def masters(ctx):
         out.append({"xkey": hdscen.root_xkey({"k": ks[i], "chain": ccs[i]})})
     out.append({"xkey": hdscen.root_xkey({"k": ks[-1], "chain": ccs[-1], "testnet": True}), "testnet": True})
     out.append({"xkey": hdscen.root_xkey({"k": ks[2], "chain": ccs[3], "depth": 3, "index": H + 5, "pfp": "01020304"}), "via": "wallet"})
+    # masters imported under the OTHER SLIP-132 prefixes (the BIP85 outputs do not depend on the prefix of the master)
+    nd = hdscen.ref_root({"k": ks[3], "chain": ccs[2]})
+    out.append({"xkey": hd.xprv(nd, hd.version_for("prv", False, 84))})
+    out.append({"xkey": hd.xprv(nd, hd.version_for("prv", True, 49)), "testnet": True, "via": "wallet"})
+    if ctx.thorough:
+        out.append({"xkey": hd.xprv(nd, hd.version_for("prv", False, 49)), "via": "wallet"})
+        out.append({"xkey": hd.xprv(nd, hd.version_for("prv", True, 84)), "testnet": True})
     return out
 
 
